@@ -172,6 +172,8 @@ pub enum Ev {
     TimerSubmit { aidx: ActorIdx, inst: u32, reg_inc: u32, timer: u32, n: u32 },
     StreamYield { aidx: ActorIdx, id: u64 },
     StreamEnd { aidx: ActorIdx },
+    /// the library polled the stream again after it had returned `None` (streams may panic then)
+    StreamPolledAfterEnd { aidx: ActorIdx },
     /// a select! in the stream loop polled the stream while it had an item ready (coverage probe)
     GateOpened { gate: u32 },
     FaultFired { actor: ActorIdx, what: u8 },
@@ -245,6 +247,7 @@ fn ev_code(ev: &Ev) -> u64 {
         }
         Ev::StreamYield { aidx, id } => (13 ^ (*aidx as u64) << 8).wrapping_add(id.rotate_left(13)),
         Ev::StreamEnd { aidx } => 14 ^ (*aidx as u64) << 8,
+        Ev::StreamPolledAfterEnd { aidx } => 22 ^ (*aidx as u64) << 8,
         Ev::GateOpened { gate } => 15 ^ (*gate as u64) << 8,
         Ev::FaultFired { actor, what } => 16 ^ (*actor as u64) << 8 ^ (*what as u64) << 40,
         Ev::Phase(p) => 17 ^ (*p as u64) << 8,
